@@ -798,6 +798,7 @@ func (op *ShellOperator) CombineBindingContextForHook(q *queue.TaskQueue, t task
 
 	// Delete tasks with false in tasksFilter map
 	op.TaskQueues.GetByName(t.GetQueueName()).Filter(func(tsk task.Task) bool {
+		verifhook.Yield("combine.inFilter")
 		if v, ok := tasksFilter[tsk.GetId()]; ok {
 			return v
 		}
